@@ -858,9 +858,17 @@ pub fn cmd_check(args: &[String]) -> i32 {
     let seq_secs = match id.as_str() {
         "C11" => secs / 2,
         "C08" => secs * 3 / 4,
+        "C04" => secs * 4 / 5,
         _ => secs,
     };
     let mut b = run_batch(&id, root, runs, seq_secs, jobs, false, thorough, false);
+    if id == "C04" {
+        // last fifth of the budget: requests falling between two chain events of one poll (a disconnection and the next
+        // connection) and racing with them; a tracker recorded as confirmed must name the true height of its penalty
+        let c = run_batch(&id, root, u64::MAX / 4, secs - seq_secs, jobs, false, thorough, true);
+        merge_into(&mut b.merged, c.merged);
+        b.wall += c.wall;
+    }
     if id == "C08" {
         // last quarter of the budget: requests racing with block events under the scheduler (the start block of a
         // receipt must be the height at which the request entered its critical section)
